@@ -301,6 +301,11 @@ func c06Run(env *fw.Env, raw json.RawMessage) fw.Outcome {
 			if w.Step == len(c.Plan) {
 				plain := w.Kind == "main" && w.Local == "" && !strings.Contains(w.Hint, "/") && !strings.Contains(w.Hint, "?") && !strings.Contains(w.Hint, "search")
 				continues := c.Multi && strings.HasSuffix(w.Line, "\\")
+				// the case's own bindings make C-x a prefix in every main keymap: a script ending
+				// with it leaves a sequence pending, which the accepting RET completes or breaks
+				if len(c.Bound) > 0 && len(c.Plan) > 0 && strings.HasSuffix(c.Plan[len(c.Plan)-1].W, "\x18") {
+					plain = false
+				}
 				if plain && !continues && i == len(res.Waits)-1 {
 					o.O.Events++
 					o.Add("acceptances_judged", 1)
